@@ -728,8 +728,19 @@ impl<'a> SrcGen<'a> {
             20 => self.block(d - 1, indent),
             21 => format!("{{\"{}\"}}: {} = {};", self.rng.pick(DIFF_STRINGS), self.var(false), self.any_expr(2)),
             22 => format!("{} {}({}) {}", self.rng.pick(&["void", "int", "float", "inline void", "const int"]), self.ident(), self.params(), if self.rng.chance(1, 4) { ";".to_string() } else { self.block(d - 1, indent) }),
-            // (explicit sub calls `@f(..)` / `f(..) async`: the parser crashes on them unless they carry a
-            // pseudo-arg, see `glue_sources`)
+            // explicit sub calls `@f(..)` / `f(..) async [id]` (no pseudo-args: the parser rejects those)
+            23 if self.rng.chance(1, 2) => {
+                let n = self.rng.below(4);
+                let args: Vec<String> = (0..n).map(|_| self.any_expr(1)).collect();
+                let func = self.ident();
+                match self.rng.below(4) {
+                    0 => format!("@{func}({});", args.join(", ")),
+                    1 => format!("@{func}({}) async;", args.join(", ")),
+                    2 => format!("{func}({}) async;", args.join(", ")),
+                    // (the id is kept simple: truth's own AST walkers do not descend into it)
+                    _ => { let id = if self.rng.chance(1, 2) { self.ident() } else { format!("{}", self.rng.below(100)) }; format!("{func}({}) async {id};", args.join(", ")) },
+                }
+            },
             _ => format!("{} {} {};", self.var(false), self.rng.pick(ASSIGNOPS), self.any_expr(2)),
         };
         format!("{pad}{body}\n")
@@ -782,7 +793,7 @@ fn glue_sources() -> Vec<(&'static str, String)> {
     out.push(("neg-literal", stmt("ins_3(4294967295, 0xffffff00);")));
     out.push(("neg-literal", "meta {a: 4294967295, b: [0xffffffff, 1]}\n".to_string()));
     out.push(("neg-literal", "const int A = 4294967295, B = 3000000000 + 1;\n".to_string()));
-    for body in ["@foo(@mask=1, 2);", "@foo(@blob=\"00\") async;", "foo(@mask=1, a) async 3;", "@foo(@pop=0);"] { out.push(("call-sub", stmt(body))); }
+    for body in ["@foo(2);", "@foo() async;", "foo(1, a) async 3;", "@foo(a + 1, -2);", "foo(x) async;"] { out.push(("call-sub", stmt(body))); }
     for body in ["interrupt[ins_100(1.0)]:\n    ins_0();", "+f(1, 2):\n    ins_0();", "interrupt[someFunction(argument_number_one + 1000000, argument_number_two * 2000000, argument_number_three, 123456789, 1.5)]:\n    ins_0();"] { out.push(("label-break", stmt(body))); }
     out.push(("glue-meta-key", "meta {4294967295: 1}\n".to_string()));
     out.push(("glue-meta-key", "entry {a: {0xffffffff: \"x\", 3: 4}}\n".to_string()));
